@@ -450,18 +450,22 @@ add(name="c20_soundness", prop="C20", crate="phys", expr="crate::c20::soundness"
 add(name="c20_displacement", prop="C20", crate="phys", expr="crate::c20::displacement", unwind=4, cap_s=900, mem_gb=4, est_s=30,
     family="cbts_displacement", funcs=CBTS_FUNCS[:1], witnesses=["reached"],
     params={"edge": "true tick in [2^24, 16*2^23)", "faults": "late/early by one half wrap, dropped, duplicated, missing marker"})
+add(name="c20_model_lemma", prop="C20", crate="phys", expr="crate::c20::model_lemma", unwind=4, cap_s=900, mem_gb=4, est_s=30,
+    family="cbts_model", funcs=CBTS_FUNCS[2:], witnesses=["last-half-wrap"],
+    params={"edge": "every tick of the first 8 wraps", "claim": "integer identity between the documented formula and the true tick"})
 for C in range(0, 15):
     add(name="c20_model_fixed_%d" % C, prop="C20", crate="phys", expr="crate::c20::model_fixed::<%d>" % C, unwind=4, cap_s=2400,
         mem_gb=5, est_s=300, family="cbts_model", funcs=CBTS_FUNCS[:1] + CBTS_FUNCS[2:], witnesses=["edge-right-at-the-marker"],
-        sched="always" if C in (0, 1) else ("pool" if C < 6 else "thorough"),
+        sched="thorough", klass="best",
         params={"marker_counter": C, "edge": "every tick of that half wrap, every channel"})
 add(name="c20_model", prop="C20", crate="phys", expr="crate::c20::model", unwind=4, cap_s=5400, mem_gb=8, est_s=1500,
     family="cbts_model", funcs=CBTS_FUNCS[:1] + CBTS_FUNCS[2:], witnesses=["last-half-wrap"], sched="thorough", klass="best",
     params={"edge": "every tick of the first 8 wraps (symbolic marker counter)"})
 for N in (2, 3, 4, 5):
     add(name="c20_row_loop_%d" % N, prop="C20", crate="phys", expr="crate::c20::row_loop::<%d>" % N, unwind=N + 3, cap_s=3600,
-        mem_gb=8, est_s=300, family="cbts_rows", funcs=CBTS_FUNCS, witnesses=["all-timestamps", "a-row-with-a-time"] if N >= 3 else ["all-timestamps"],
-        sched="always" if N == 3 else ("pool" if N == 2 else "thorough"), klass="core" if N <= 3 else "best",
+        mem_gb=8, est_s=300, family="cbts_rows", funcs=CBTS_FUNCS[1:], witnesses=["all-timestamps", "a-row"],
+        stub=("crate::extracted_cbts::chronobox_time", "crate::c20::chronobox_time_stub"),
+        sched="always" if N in (3, 4) else ("pool" if N == 2 else "thorough"), klass="core" if N <= 4 else "best",
         params={"fifo_entries": N, "content": "entry 0 = counter-0 marker, every other entry an arbitrary timestamp or marker"})
 META["C20"] = {
     "pool_k": 2,
@@ -493,7 +497,7 @@ def c04(n, ids, lens, sched, kind, klass="core", est=300):
     wit = {"valid": ["well-formed-set-decoded", "well-formed-set-bad-payload", "faulty-set"], "fault": ["faulty-set"]}[kind]
     add(name=name, prop="C04", also=["C01"], crate="det", expr="crate::c04::reassembly::<%d, %d, %d>" % (n, octal(ids), octal(lens)),
         unwind=12, unwindset=C04_LOOPS, cap_s=3600, mem_gb=8, est_s=est, family="reassembly_" + kind, funcs=CHUNKS_FUNCS,
-        witnesses=wit, sched=sched, klass=klass,
+        witnesses=wit, sched=sched, klass=klass, solver="minisat",
         params={"chunks": n, "arrival_order_of_ids": list(ids), "payload_lengths": [4 * x for x in lens],
                 "symbolic": "board (2 real boards), chip, end-of-message flag, counters, payload bytes"})
 for n in (2, 3, 4):
@@ -549,3 +553,6 @@ add(name="probe_fifo_prefix_8", prop="PROBE2", crate="det", expr="crate::c07::fi
     cap_s=1500, mem_gb=10, witnesses=["all-words-are-entries"], solver="minisat")
 add(name="probe_fifo_prefix_4", prop="PROBE2", crate="det", expr="crate::c07::fifo_prefix::<4>", unwind=4, unwindset=fifo_loops(1),
     cap_s=1500, mem_gb=10, witnesses=["all-words-are-entries"], solver="minisat")
+
+add(name="probe_rows_only_2", prop="PROBE4", crate="phys", expr="crate::c20::dbg_rows_only::<2>", unwind=6, cap_s=500, mem_gb=8, witnesses=[])
+
